@@ -103,8 +103,67 @@ def run_writer(repo, method, units):
     return got[0]
 
 
+def check_heater_setters(ctx, repo):
+    """R5: the heater's two setters hand the caller's value, unchanged, to the temperature accessor on
+    every path (a skipped or altered write cannot read back exactly)"""
+    from ..cfg import cfg_of
+    n_ok = 0
+    for name, want_attr in (("set_target_temperature", ("value", "set_value")), ("async_set_target_temperature", ("async_set_value",))):
+        fi = repo.own_method("GeckoWaterHeater", name)
+        params = [a.arg for a in fi.node.args.args if a.arg != "self"]
+        if len(params) != 1:
+            ctx.error(f"{fi.qual}: expected one value parameter, found {params}")
+            continue
+        par = params[0]
+        g = cfg_of(fi)
+        writes = []
+        for n in g.stmt_nodes():
+            st = n.ast
+            if isinstance(st, ast.Assign) and len(st.targets) == 1 and isinstance(st.targets[0], ast.Attribute) and st.targets[0].attr == "value" \
+                    and ast.unparse(st.targets[0].value).endswith(".accessor") and "value" in want_attr:
+                writes.append((n, st.value))
+            for c in n.calls():
+                if isinstance(c.func, ast.Attribute) and c.func.attr in want_attr and c.func.attr != "value" and ast.unparse(c.func.value).endswith(".accessor") and len(c.args) == 1:
+                    writes.append((n, c.args[0]))
+        if not writes:
+            ctx.error(f"{fi.qual}: no write to the target temperature accessor found - idiom not supported by C14.R5")
+            continue
+        # rebinding of the parameter before the write = altered value
+        rebound = [n for n in g.stmt_nodes() for t in ast.walk(n.ast) if isinstance(t, ast.Name) and t.id == par and isinstance(t.ctx, ast.Store)]
+        unchanged = all(isinstance(v, ast.Name) and v.id == par for _, v in writes) and not rebound
+        ctx.ob("R5", f"{fi.qual}::writes-the-callers-value", unchanged,
+               f"{fi.qual}: the value handed to the accessor is `{'`, `'.join(ast.unparse(v) for _, v in writes)}`{' after the parameter is rebound' if rebound else ''}, not the caller's `{par}`; the accessor's own conversion is the only rounding the round-trip argument (R1) allows",
+               fi.loc, sample={"rule": "R5", "setter": fi.qual, "written": [ast.unparse(v) for _, v in writes]})
+        every = any(g.pdom(w, g.entry) for w, _ in writes)
+        skip = ""
+        if not every:
+            w = writes[0][0]
+            atoms = g.guard_atoms(w)
+            skip = "; ".join(("" if p else "not ") + t for t, p in atoms)
+
+            def exact_eq_skip(t, p):
+                # `if new == current: return` - skipping a write of the value already held reads back the same
+                try:
+                    e = ast.parse(t, mode="eval").body
+                except SyntaxError:
+                    return False
+                if not (isinstance(e, ast.Compare) and len(e.ops) == 1):
+                    return False
+                sides = [ast.unparse(e.left), ast.unparse(e.comparators[0])]
+                return par in sides and ((isinstance(e.ops[0], ast.Eq) and not p) or (isinstance(e.ops[0], ast.NotEq) and p))
+            if atoms and all(exact_eq_skip(t, p) for t, p in atoms):
+                every = True
+                ctx.note(f"{fi.qual}: write skipped only when the requested value equals a current reading ({skip}) - accepted")
+        ctx.ob("R5", f"{fi.qual}::writes-on-every-path", every,
+               f"{fi.qual}: the write to the accessor is skipped unless [{skip}]: a representable temperature for which the guard fails is never written, so it does not read back",
+               fi.loc)
+        n_ok += 1
+    ctx.floor("R5", "heater setters analysed", n_ok, 2)
+
+
 def check(ctx):
     repo = Repo()
+    ctx.rule("R5", "heater setters are pass-through: set_target_temperature / async_set_target_temperature hand the caller's value unchanged to the accessor's setter on every path from entry")
     ctx.rule("R1", "affine inverse pair: reader is raw/18 (C) and (raw+320)/10 (F); each writer is its exact inverse over the rationals (writer(reader(x)) == x), slopes positive (order preserved), truncation to int is the only rounding; sync and async writers identical")
     ctx.rule("R2", "unit consistency: temperature_unit, min_temp and max_temp branch on the same unit value; Celsius constants on the 'C' arm, Fahrenheit otherwise; limits of the two units denote the same temperatures")
     ctx.rule("R4", "live unit: reader, both writers, symbol and limits each read the unit from the TempUnits item within the call (no cached copy), so they agree at every instant incl. inside change notifications")
@@ -225,6 +284,7 @@ def check(ctx):
                        f"current_operation with heating flag {h}, cooling flag {cl}, current {'<=>'[sign + 1]} target reports {got!r}, expected {want!r}", co.loc,
                        sample={"rule": "R3", "heating": h, "cooling": cl, "order": "<=>"[sign + 1], "operation": got} if n % 9 == 1 else None)
     ctx.count("R3:ladder_cases", n)
+    check_heater_setters(ctx, repo)
     ctx.exhaustive = False
     ctx.assume("int() truncation and float arithmetic are monotone; floats in the source are read as exact decimals")
     ctx.note("NOT decided: exact read-back of every representable word through IEEE doubles, and 'within one device step' for other values (numerical; a design-round probe found int(raw/18.0*18.0)==raw for all 65 536 words, but that is a dynamic fact, not claimed here).")
